@@ -458,6 +458,177 @@ digits_harness!(digits_u16, u16, i64);
 // (simd_cast), which Kani 0.68 does not support; recorded as outside in DESIGN.md.)
 
 // ---------------------------------------------------------------------------------------------
+// The reservation made by write::text::ascii_digits for EVERY integer width, against the
+// contract of itoap (an external crate whose >= 32-bit code uses SSE2 intrinsics Kani cannot
+// encode): `write_to_ptr(ptr, v)` writes exactly the decimal text of v (at most V::MAX_LEN bytes)
+// at the pointer and returns its length; `write(w, v)` hands the same text to `w.write`. The stubs
+// write that many bytes (first, last and one symbolic index: every byte of the text is covered by
+// the solver without a loop), so CBMC's pointer checks decide whether the space flussab reserved
+// (buf_write_ptr(I::MAX_LEN)) covers every value, for every fill level of the buffer. The length
+// is a function of the value, so a counterexample replays natively against the real itoap.
+
+/// Number of characters of the canonical decimal text.
+fn dec_len(neg: bool, mag: u128) -> usize {
+    // unrolled (no loop: the harness unwind bound stays small)
+    let mut n = 1;
+    n += (mag >= 10) as usize;
+    n += (mag >= 100) as usize;
+    n += (mag >= 1000) as usize;
+    n += (mag >= 10000) as usize;
+    n += (mag >= 100000) as usize;
+    n += (mag >= 1000000) as usize;
+    n += (mag >= 10000000) as usize;
+    n += (mag >= 100000000) as usize;
+    n += (mag >= 1000000000) as usize;
+    n += (mag >= 10000000000) as usize;
+    n += (mag >= 100000000000) as usize;
+    n += (mag >= 1000000000000) as usize;
+    n += (mag >= 10000000000000) as usize;
+    n += (mag >= 100000000000000) as usize;
+    n += (mag >= 1000000000000000) as usize;
+    n += (mag >= 10000000000000000) as usize;
+    n += (mag >= 100000000000000000) as usize;
+    n += (mag >= 1000000000000000000) as usize;
+    n += (mag >= 10000000000000000000) as usize;
+    n += (mag >= 100000000000000000000) as usize;
+    n += (mag >= 1000000000000000000000) as usize;
+    n += (mag >= 10000000000000000000000) as usize;
+    n += (mag >= 100000000000000000000000) as usize;
+    n += (mag >= 1000000000000000000000000) as usize;
+    n += (mag >= 10000000000000000000000000) as usize;
+    n += (mag >= 100000000000000000000000000) as usize;
+    n += (mag >= 1000000000000000000000000000) as usize;
+    n += (mag >= 10000000000000000000000000000) as usize;
+    n += (mag >= 100000000000000000000000000000) as usize;
+    n += (mag >= 1000000000000000000000000000000) as usize;
+    n += (mag >= 10000000000000000000000000000000) as usize;
+    n += (mag >= 100000000000000000000000000000000) as usize;
+    n += (mag >= 1000000000000000000000000000000000) as usize;
+    n += (mag >= 10000000000000000000000000000000000) as usize;
+    n += (mag >= 100000000000000000000000000000000000) as usize;
+    n += (mag >= 1000000000000000000000000000000000000) as usize;
+    n += (mag >= 10000000000000000000000000000000000000) as usize;
+    n += (mag >= 100000000000000000000000000000000000000) as usize;
+    n + neg as usize
+}
+
+/// (is negative, magnitude) of an itoap::Integer given only its bits.
+unsafe fn sign_mag<V: itoap::Integer>(v: &V) -> (bool, u128) {
+    let signed = matches!(V::MAX_LEN, 4 | 6 | 11 | 21 | 40);
+    let p = v as *const V as *const u8;
+    let (bits, width): (u128, u32) = match core::mem::size_of::<V>() {
+        1 => (*(p as *const u8) as u128, 8),
+        2 => (*(p as *const u16) as u128, 16),
+        4 => (*(p as *const u32) as u128, 32),
+        8 => (*(p as *const u64) as u128, 64),
+        _ => (*(p as *const u128), 128),
+    };
+    if signed && (bits >> (width - 1)) & 1 == 1 {
+        let ext = if width == 128 { bits } else { bits | (u128::MAX << width) };
+        (true, (!ext).wrapping_add(1))
+    } else {
+        (false, bits)
+    }
+}
+
+static mut G_DIG_FAST: bool = false;
+
+pub unsafe fn stub_write_to_ptr<V: itoap::Integer>(buf: *mut u8, value: V) -> usize {
+    let (neg, mag) = sign_mag(&value);
+    let n = dec_len(neg, mag);
+    assert!(n <= V::MAX_LEN);
+    G_DIG_FAST = true;
+    let j: usize = kani::any();
+    kani::assume(j < n);
+    *buf = b'1';
+    *buf.add(n - 1) = b'1';
+    *buf.add(j) = b'1';
+    n
+}
+
+pub fn stub_itoap_write<W: std::io::Write, V: itoap::Integer>(mut writer: W, value: V) -> std::io::Result<usize> {
+    let (neg, mag) = unsafe { sign_mag(&value) };
+    let n = dec_len(neg, mag);
+    let d = [b'1'; 40];
+    writer.write(&d[..n])
+}
+
+/// Writer with an arbitrary fill level; the buffered content is irrelevant here (left
+/// unconstrained), no stream witness.
+fn any_writer_fill() -> (DeferredWriter<'static>, Pre) {
+    let len: usize = kani::any();
+    kani::assume(len <= WCAP);
+    let mut buf: Vec<u8> = Vec::with_capacity(WCAP);
+    unsafe {
+        buf.set_len(len);
+    }
+    assert!(buf.capacity() == WCAP);
+    let base: usize = kani::any();
+    kani::assume(base <= BIG);
+    unsafe {
+        G_WRITTEN = base + len;
+        G_BASE = base;
+        G_W = usize::MAX; // no stream witness in these harnesses
+        G_WB = 0;
+        G_SEEN = false;
+        G_SUNK_IN_OP = 0;
+        G_OP_BASE = base;
+        G_CALLS = 0;
+        G_FLUSH_CALLS = 0;
+        G_FAILED_IN_OP = false;
+        G_INTR = 0;
+        G_SHORT_DONE = false;
+        G_ORDER_OK = true;
+        M_MAY_FAIL = false;
+        M_MAY_SHORT = false;
+        M_MAY_INTR = false;
+    }
+    let wr = DeferredWriter { write: Box::new(Sink), buf, io_error: None, panicked: false };
+    (wr, Pre { len, has_err: false, base, written: base + len, seen: false })
+}
+
+macro_rules! digits_reserve_harness {
+    ($name:ident, $t:ty, $v:ident, $neg:expr, $mag:expr) => {
+        #[kani::proof]
+        #[kani::stub(itoap::write_to_ptr, stub_write_to_ptr)]
+        #[kani::stub(itoap::write, stub_itoap_write)]
+        pub fn $name() {
+            let (mut wr, pre) = any_writer_fill();
+            let $v: $t = kani::any();
+            let n = dec_len($neg, $mag);
+            crate::write::text::ascii_digits(&mut wr, $v);
+            unsafe {
+                assert!(G_ORDER_OK);
+                assert!(wr.buf.len() <= wr.buf.capacity());
+                assert!(wr.buf.capacity() == WCAP);
+                if G_DIG_FAST {
+                    assert!(G_CALLS == 0);
+                }
+                // stream accounting: exactly the text was appended, nothing lost or duplicated
+                assert!(pre.base + G_SUNK_IN_OP + wr.buf.len() == pre.written + n);
+                if G_CALLS == 0 {
+                    assert!(wr.buf.len() == pre.len + n);
+                }
+                kani::cover!(G_DIG_FAST && n + 1 >= <$t as itoap::Integer>::MAX_LEN, "fast path, longest text");
+                kani::cover!(G_CALLS > 0, "cold path with flush");
+            }
+            forget(wr);
+        }
+    };
+}
+
+digits_reserve_harness!(digits_reserve_i8, i8, v, v < 0, (v as i128).unsigned_abs());
+digits_reserve_harness!(digits_reserve_u16, u16, v, false, v as u128);
+digits_reserve_harness!(digits_reserve_i32, i32, v, v < 0, (v as i128).unsigned_abs());
+digits_reserve_harness!(digits_reserve_u32, u32, v, false, v as u128);
+digits_reserve_harness!(digits_reserve_i64, i64, v, v < 0, (v as i128).unsigned_abs());
+digits_reserve_harness!(digits_reserve_u64, u64, v, false, v as u128);
+digits_reserve_harness!(digits_reserve_isize, isize, v, v < 0, (v as i128).unsigned_abs());
+digits_reserve_harness!(digits_reserve_usize, usize, v, false, v as u128);
+digits_reserve_harness!(digits_reserve_i128, i128, v, v < 0, (v as i128).unsigned_abs());
+digits_reserve_harness!(digits_reserve_u128, u128, v, false, v as u128);
+
+// ---------------------------------------------------------------------------------------------
 // vacuity twin
 
 #[kani::proof]
